@@ -47,9 +47,16 @@ def run_property(pid: str, tier: str, root: str, seed: int, ctx=None) -> int:
         rep.errors.append(f"internal error while loading the program: {e!r}")
         traceback.print_exc()
         return rep.finish(spec)
+    try:
+        from sa.shapegate import Gate
+        rep.gate = Gate(ctx.prog)
+    except Exception as e:
+        rep.errors.append(f"shape gate: {e!r}")
     for rule in spec["rules"]:
         try:
+            ctx.prog.consulted = set()
             rr = rule(ctx)
+            rr.consulted = sorted(set(getattr(rr, "consulted", ())) | ctx.prog.consulted)
             rep.add(rr)
         except AnalysisError as e:
             rep.errors.append(f"{rule.__name__}: {e}")
